@@ -23,6 +23,7 @@ SIM_SEEDS = [11, 12]
 SIM_TWICE = {"vec_u64", "bytes", "vec_u64_grow", "vec_pair_grow", "bytes_grow"}      # these run with both seeds
 SIM_WALKS = 100
 NUM = ["u8", "u16", "u32", "u64", "u128a", "u128b", "u256a", "u256b", "u256c"]
+WIDE_OPS = {"add", "sub", "mul", "wrapping_add", "wrapping_sub", "wrapping_mul", "overflowing_add", "overflowing_mul", "divmod", "cmp"}
 TLC_PAR = 4          # single-worker TLC processes side by side (the design-level run adds 2 workers in the thorough tier)
 
 
@@ -189,9 +190,11 @@ def run(ctx):
         mc_future = mcx.submit(lambda: ctx.tlc("MC_StdModels", "MC_StdModels", workers=2, coverage=True, xss="256m", timeout=3600))
     # ---- 1. pools from TLC
     if quick:
-        gens = slice_for_seed(GEN, ctx.seed, 1)
-        sims = [(slice_for_seed(SIM, ctx.seed, 1)[0], SIM_SEEDS[ctx.seed % len(SIM_SEEDS)])]
-        nums = slice_for_seed(NUM, ctx.seed, 1)
+        # every pool is generated; the quick tier executes a VERIF_SEED-selected slice of each (below), and all
+        # multi-limb arithmetic cases of the wide types
+        gens = GEN
+        sims = [(s, SIM_SEEDS[ctx.seed % len(SIM_SEEDS)]) for s in SIM]
+        nums = NUM
     else:
         gens, sims, nums = GEN, [(s, sd) for s in SIM for sd in SIM_SEEDS if sd == SIM_SEEDS[0] or s in SIM_TWICE], NUM
     jobs = [("gen", g, None) for g in gens] + [("sim", s, sd) for s, sd in sims] + [("num", t, None) for t in nums]
@@ -216,9 +219,18 @@ def run(ctx):
         mc_cov = mc.coverage_actions()
     mcx.shutdown()
     if quick:
-        walks = [h for h in hist if h["id"].startswith("sim:")]
-        hist = slice_for_seed([h for h in hist if not h["id"].startswith("sim:")], ctx.seed, 800) + slice_for_seed(walks, ctx.seed, 40)
-        cases = slice_for_seed(cases, ctx.seed, 600)
+        by_pool = {}
+        for h in hist:
+            by_pool.setdefault(h["id"].split("#")[0], []).append(h)
+        hist = []
+        for k in sorted(by_pool):
+            hist += slice_for_seed(by_pool[k], ctx.seed, 5 if k.startswith("sim:") else 90)
+        wide = [c for c in cases if c["ty"] in ("u128", "u256") and c["op"] in WIDE_OPS]
+        rest = [c for c in cases if not (c["ty"] in ("u128", "u256") and c["op"] in WIDE_OPS)]
+        by_ty = {}
+        for c in rest:
+            by_ty.setdefault(c["ty"], []).append(c)
+        cases = wide + sum((slice_for_seed(by_ty[t], ctx.seed, 100) for t in sorted(by_ty)), [])
     # anti-vacuity: every operation of the model occurs in the pool, reverting and not
     opcount = {}
     for h in hist:
